@@ -5,6 +5,9 @@ from props import rcu_common as R
 
 
 def run(ctx):
+    # Tier B: GPI.tla (general_instant: reader lock as three accesses, flip_and_wait over the thread list, two flips; one flip must fail)
+    vlib.model_check_many(ctx, [dict(module_rel="smr/GPIMC.tla", cfg_rel="smr/GPI_q.cfg", workers=4),
+                                dict(module_rel="smr/GPIMC.tla", cfg_rel="smr/GPI_bad_oneflip.cfg", workers=2, expect_violation="Assert")], par=2)
     progs = R.PROGRAMS + [R.gen_program(ctx.rng) for _ in range(1 if ctx.quick() else 8)]
     st = [("dfs", 600 if ctx.quick() else 50000, 1 if ctx.quick() else 2), ("pct", 80 if ctx.quick() else 3000, 0), ("random", 40 if ctx.quick() else 1500, 0)]
     deep = [("dfs", 7000 if ctx.quick() else 400000, 3 if ctx.quick() else 4)]
